@@ -1473,4 +1473,473 @@ theorem run_seg (init : List Exch) : ∀ (last : Exch) (k : Nat) (c : Cli) (rest
     rw [h3]
     simp [List.append_assoc]
 
+
+theorem hasCRLF_no13 (w : Bytes) (h : ∀ b ∈ w, b ≠ 13) : hasCRLF (w ++ [13]) = false := by
+  induction w with
+  | nil => rfl
+  | cons a w ih =>
+    rw [List.cons_append, hasCRLF_cons _ _ (h a (by simp))]
+    exact ih (fun b hb => h b (by simp [hb]))
+
+/-- the banner -/
+def bannerLine (v : Bytes) : Bytes := str "001 " ++ v ++ crlf
+/-- a word for `%s`: non-empty, no white space, no NUL -/
+def IsWord (w : Bytes) : Prop := w ≠ [] ∧ ∀ b ∈ w, isSpace b = false ∧ b ≠ 0
+
+theorem str_001 : str "001 " = [48, 48, 49, 32] := by decide +kernel
+
+theorem scanVersion_banner (v : Bytes) (hv : IsWord v) : scanVersion (cstr (str "001 " ++ v)) = some v := by
+  have hc : cstr (str "001 " ++ v) = str "001 " ++ v := by
+    apply cstr_of_nonul
+    intro x hx
+    simp only [str_001, List.mem_append, List.mem_cons, List.not_mem_nil, or_false] at hx
+    rcases hx with h | h
+    · rcases h with rfl | rfl | rfl | rfl <;> decide
+    · exact (hv.2 x h).2
+  rw [hc]
+  obtain ⟨a, w', rfl⟩ := List.exists_cons_of_ne_nil hv.1
+  have ha := (hv.2 a (by simp)).1
+  unfold scanVersion
+  rw [str_001]
+  simp only [List.cons_append, List.nil_append]
+  have h32 : isSpace 32 = true := by decide
+  simp only [List.dropWhile_cons, h32, ↓reduceIte, ha, Bool.false_eq_true]
+  have : List.takeWhile (fun b => !isSpace b) (a :: w') = a :: w' := by
+    have := List.takeWhile_append_of_pos (p := fun b => !isSpace b) (l₁ := a :: w') (l₂ := []) (by
+      intro x hx; simp [(hv.2 x hx).1])
+    simpa using this
+  rw [this]
+  simp
+
+/-- the warning `_process_version` prints when the versions differ -/
+def versionWarning (o : CliOpts) (v : Bytes) : Bytes :=
+  if v != o.version then str "powerman: warning: server version (" ++ v ++ str ") != client (" ++ o.version ++ str ")\n" else []
+
+theorem stageVersion_seg (o : CliOpts) (v : Bytes) (hv : IsWord v) (cs : List Chunk) (rest : Bytes) (t : List Chunk) (fuel : Nat)
+    (hseg : Seg cs (bannerLine v ++ rest) t) (hf : chunkBytes cs < fuel) :
+    ∃ cs', stageVersion o fuel { cs := cs } = (.ok (), { cs := cs', errs := versionWarning o v }) ∧ Seg cs' rest t := by
+  have hlen := Seg_length hseg
+  have hx : hasCRLF ((str "001 " ++ v) ++ [13]) = false := by
+    apply hasCRLF_no13
+    intro b hb h13
+    simp only [str_001, List.mem_append, List.mem_cons, List.not_mem_nil, or_false] at hb
+    subst h13
+    rcases hb with h | h
+    · revert h; decide
+    · have := (hv.2 _ h).1
+      revert this; decide
+  obtain ⟨cs', h1, h2⟩ := readStr_line (str "001 " ++ v) rest cs t fuel (by simpa [bannerLine] using hseg) hx (by
+    simp [bannerLine, crlf] at hlen; simp; omega)
+  refine ⟨cs', ?_, h2⟩
+  unfold stageVersion
+  simp only
+  rw [h1]
+  simp only [scanVersion_banner v hv]
+  unfold versionWarning
+  split <;> simp
+
+theorem bytesOfExchs_mem (es : List Exch) (e : Exch) (h : e ∈ es) : e.lines.length < (bytesOfExchs es).length := by
+  induction es with
+  | nil => simp at h
+  | cons a es ih =>
+    simp only [bytesOfExchs, List.map_cons, List.flatten_cons, List.length_append] at ih ⊢
+    rcases List.mem_cons.mp h with rfl | h
+    · have := bytesOfLines_length e.all
+      simp [Exch.bytes, Exch.all, prompt] at this ⊢
+      omega
+    · have := ih h
+      omega
+
+/-- the whole run on a conforming stream, however segmented -/
+theorem cliCore_conforming (o : CliOpts) (v : Bytes) (init : List Exch) (last : Exch) (cs t : List Chunk)
+    (hseg : Seg cs (bannerLine v ++ prompt ++ bytesOfExchs (init ++ [last]) ++ goodbye) t)
+    (hv : IsWord v) (hinit : ∀ e ∈ init, e.ok ∧ e.res = 0) (hlast : last.ok)
+    (hk : init.length + 1 = exchanges o ∨ (init.length + 1 ≤ exchanges o ∧ last.res ≠ 0)) :
+    ∃ cs', cliCore o cs = (.ok last.res,
+      { cs := cs', out := ((init ++ [last]).map fun e => outOf e.all).flatten,
+        errs := versionWarning o v ++ ((init ++ [last]).map fun e => errOf e.all).flatten }) := by
+  have hlen := Seg_length hseg
+  have hfuel : ∀ e ∈ init ++ [last], e.lines.length < chunkBytes cs + 2 := by
+    intro e he
+    have := bytesOfExchs_mem _ e he
+    simp only [List.length_append] at hlen
+    omega
+  obtain ⟨cs1, h1, s1⟩ := stageVersion_seg o v hv cs (prompt ++ bytesOfExchs (init ++ [last]) ++ goodbye) t (chunkBytes cs + 2)
+    (by simpa [List.append_assoc] using hseg) (by omega)
+  obtain ⟨cs2, h2, s2⟩ := expectC_seg prompt (bytesOfExchs (init ++ [last]) ++ goodbye) { cs := cs1, errs := versionWarning o v } t
+    (by simpa [List.append_assoc] using s1) (by decide) cstr_prompt
+  obtain ⟨cs3, h3, s3⟩ := run_seg init last (exchanges o) { cs := cs2, errs := versionWarning o v } goodbye t (chunkBytes cs + 2)
+    (fun e he => ⟨(hinit e he).1, (hinit e he).2, hfuel e (by simp [he])⟩) hlast (hfuel last (by simp)) hk s2
+  obtain ⟨cs4, h4, _⟩ := expectC_seg goodbye [] (Cli.mk cs3 ([] ++ ((init ++ [last]).map fun e => outOf e.all).flatten)
+      (versionWarning o v ++ ((init ++ [last]).map fun e => errOf e.all).flatten)) t
+    (by simpa using s3) (by decide +kernel) cstr_goodbye
+  refine ⟨cs3, ?_⟩
+  unfold cliCore
+  simp only
+  rw [h1]
+  simp only
+  rw [h2]
+  simp only
+  rw [h3]
+  simp only
+  rw [h4]
+  simp
+
+theorem cliRun_conforming (o : CliOpts) (v : Bytes) (init : List Exch) (last : Exch) (cs t : List Chunk)
+    (hseg : Seg cs (bannerLine v ++ prompt ++ bytesOfExchs (init ++ [last]) ++ goodbye) t)
+    (hv : IsWord v) (hinit : ∀ e ∈ init, e.ok ∧ e.res = 0) (hlast : last.ok)
+    (hk : init.length + 1 = exchanges o ∨ (init.length + 1 ≤ exchanges o ∧ last.res ≠ 0)) :
+    cliRun o cs = (last.res, ((init ++ [last]).map fun e => outOf e.all).flatten,
+      versionWarning o v ++ ((init ++ [last]).map fun e => errOf e.all).flatten) := by
+  obtain ⟨cs', h⟩ := cliCore_conforming o v init last cs t hseg hv hinit hlast hk
+  rw [cliRun_eq, h]
+  rfl
+
+
+/-! ### end to end: a conforming reply, however segmented -/
+
+theorem prompt_no_border : ∀ k < 10, 0 < k → prompt.take k ≠ prompt.drop (10 - k) := by decide
+
+/-- if the prompt text does not occur inside the body of the reply, the accumulated bytes end with the prompt only at the end -/
+theorem prompt_not_inside (body : Bytes) (h : ¬ prompt <:+: body) :
+    ∀ q r, body ++ prompt = q ++ r → q ≠ [] → r ≠ [] → endsWith q prompt = false := by
+  intro q r hs _ hr
+  rw [← Bool.not_eq_true, endsWith_iff]
+  rintro ⟨p, rfl⟩
+  apply h
+  rcases List.append_eq_append_iff.mp hs with ⟨a', h1, h2⟩ | ⟨c', h1, _⟩
+  · -- p ++ prompt = body ++ a', prompt = a' ++ r
+    by_cases ha : a' = []
+    · subst ha
+      simp only [List.append_nil] at h1
+      exact ⟨p, [], by simp [h1]⟩
+    · exfalso
+      have hk1 : 0 < a'.length := List.length_pos_iff.mpr ha
+      have hr1 : 0 < r.length := List.length_pos_iff.mpr hr
+      have hlen : a'.length + r.length = 10 := by
+        have := congrArg List.length h2
+        simp [prompt] at this; omega
+      have ht : prompt.take a'.length = a' := by rw [h2]; simp
+      have hl2 : p.length + 10 = body.length + a'.length := by
+        have := congrArg List.length h1
+        simp [prompt] at this; omega
+      have hd : prompt.drop (10 - a'.length) = a' := by
+        have e1 : (p ++ prompt).drop (p.length + (10 - a'.length)) = prompt.drop (10 - a'.length) := by
+          rw [List.drop_append, List.drop_of_length_le (by omega)]
+          simp
+        have e2 : (body ++ a').drop (p.length + (10 - a'.length)) = a' := by
+          have : p.length + (10 - a'.length) = body.length := by omega
+          rw [this, List.drop_left]
+        rw [← e1, h1, e2]
+      exact prompt_no_border a'.length (by omega) hk1 (by rw [ht, hd])
+  · exact ⟨p, c', by rw [h1]⟩
+
+/-- `_server_recv_response` on a conforming reply: depends only on the bytes, not on how they arrive -/
+theorem recvResponse_conforming (cs t : List Chunk) (ls : List Bytes) (hseg : Seg cs (ls.flatten ++ prompt) t)
+    (hl : ∀ l ∈ ls, IsLine l) (hp : ¬ prompt <:+: ls.flatten) :
+    recvResponse cs = (retcode ls, (if retcode ls == 0 then ls.reverse else []), t) ∧ replyLines cs = ls := by
+  have h := recv_split_general cs _ t hseg (by rw [endsWith_iff]; exact ⟨_, rfl⟩) (prompt_not_inside _ hp)
+  have := recvResponse_ok cs _ t h
+  rw [parseResponse_lines ls hl] at this
+  exact this
+
+theorem nodeLine_isLine (w : Bytes) (hw : IsWord w) : IsLine (nodeLine w) := by
+  refine ⟨str "307 " ++ w, by simp [nodeLine, crlf], ?_⟩
+  apply hasCRLF_no13
+  intro b hb h13
+  simp only [str_307, List.mem_append, List.mem_cons, List.not_mem_nil, or_false] at hb
+  subst h13
+  rcases hb with h | h
+  · revert h; decide
+  · have := (hw.2 _ h).1
+    revert this; decide
+
+theorem RLine.isLine (l : RLine) (h : l.ok) : IsLine l.bytes :=
+  ⟨digits3 l.code ++ 32 :: l.text, by simp [RLine.bytes, crlf], l.noCRLF h⟩
+
+theorem nodeLine_eq (w : Bytes) : nodeLine w = digits3 307 ++ 32 :: (w ++ crlf) := by
+  have : digits3 307 = [51, 48, 55] := by decide
+  simp [nodeLine, str_307, this]
+
+theorem verdict_nodeLine (w : Bytes) : verdict (nodeLine w) = none := by
+  rw [verdict_none_iff, nodeLine_eq, scanInt_line 307 (by omega)]
+  intro d hd
+  simp only [Option.some.injEq] at hd
+  subst hd
+  decide
+
+theorem RLine.verdict (l : RLine) (h : l.ok) (hc : (l.code : Int) ∈ successCodes) : verdict l.bytes = some 0 := by
+  have : l.bytes = digits3 l.code ++ 32 :: (l.text ++ crlf) := by simp [RLine.bytes]
+  rw [verdict_of_scan _ _ (by rw [this]; exact scanInt_line l.code h.1 _) (.inl hc)]
+  simp [hc]
+
+theorem scan307_other (l : RLine) (h : l.ok) (hc : l.code ≠ 307) : scan307 (cstr l.bytes) = none := by
+  have : l.bytes = digits3 l.code ++ 32 :: (l.text ++ crlf) := by simp [RLine.bytes]
+  rw [this, cstr_digits3 _ h.1]
+  unfold scan307 digits3
+  simp only [List.cons_append, List.nil_append]
+  split
+  · rename_i r heq
+    exfalso
+    simp only [List.cons.injEq] at heq
+    obtain ⟨h1, h2, h3, _⟩ := heq
+    have a1 := congrArg UInt8.toNat h1
+    have a2 := congrArg UInt8.toNat h2
+    have a3 := congrArg UInt8.toNat h3
+    have := h.1
+    simp [UInt8.toNat_ofNat] at a1 a2 a3
+    omega
+  · rfl
+
+/-- `pm_node_iterator_create` on the reply `307 w₁ … 307 wₙ, NNN text` (NNN a success code), however segmented -/
+theorem nodeList_conforming (cs t : List Chunk) (ws : List Bytes) (tl : RLine)
+    (hseg : Seg cs ((ws.map nodeLine ++ [tl.bytes]).flatten ++ prompt) t)
+    (hw : ∀ w ∈ ws, IsWord w) (htl : tl.ok) (hc : (tl.code : Int) ∈ successCodes)
+    (hp : ¬ prompt <:+: (ws.map nodeLine ++ [tl.bytes]).flatten) :
+    nodeList cs = (0, ws, t) := by
+  have hl : ∀ l ∈ ws.map nodeLine ++ [tl.bytes], IsLine l := by
+    intro l hl
+    simp only [List.mem_append, List.mem_map, List.mem_cons, List.not_mem_nil, or_false] at hl
+    rcases hl with ⟨w, hw', rfl⟩ | rfl
+    · exact nodeLine_isLine w (hw w hw')
+    · exact tl.isLine htl
+  obtain ⟨h1, h2⟩ := recvResponse_conforming cs t _ hseg hl hp
+  have hrc : retcode (ws.map nodeLine ++ [tl.bytes]) = 0 :=
+    retcode_first _ [] _ 0 (by
+      intro x hx
+      simp only [List.mem_map] at hx
+      obtain ⟨w, _, rfl⟩ := hx
+      exact verdict_nodeLine w) (tl.verdict htl hc)
+  have h0 : (recvResponse cs).1 = 0 := by rw [h1]; exact hrc
+  rw [nodeList_spec cs h0, h2, h1]
+  simp only [Prod.mk.injEq, true_and, and_true]
+  have hne : tl.code ≠ 307 := by
+    intro h; rw [h] at hc; revert hc; decide
+  rw [List.filterMap_append]
+  simp only [List.filterMap_cons, scan307_other tl htl hne, List.filterMap_nil, List.append_nil]
+  clear hseg hp hl h1 h2 hrc h0
+  induction ws with
+  | nil => rfl
+  | cons w ws ih =>
+    have hw1 := hw w (by simp)
+    rw [List.map_cons, List.filterMap_cons, scan307_nodeLine w hw1.1 hw1.2]
+    simp only [List.cons.injEq, true_and]
+    exact ih (fun x hx => hw x (by simp [hx]))
+
+/-- `pm_node_status` on a conforming reply, however segmented -/
+theorem nodeStatus_conforming (node : Bytes) (cs t : List Chunk) (ls : List Bytes) (hseg : Seg cs (ls.flatten ++ prompt) t)
+    (hl : ∀ l ∈ ls, IsLine l) (hp : ¬ prompt <:+: ls.flatten) (hrc : retcode ls = 0) :
+    nodeStatus node cs =
+      (0, some (if ∃ l ∈ ls, cstr l = offLine node then 1 else if ∃ l ∈ ls, cstr l = onLine node then 2 else 0), t) := by
+  obtain ⟨h1, h2⟩ := recvResponse_conforming cs t ls hseg hl hp
+  have h0 : (recvResponse cs).1 = 0 := by rw [h1]; exact hrc
+  rw [nodeStatus_spec node cs h0, h2, h1]
+
+
+/-! ### the read loop with its memory accesses logged -/
+
+/-- one `read` of the loop: `count` bytes were in the buffer, `n` bytes were stored at `buf + count`, the buffer had `buflen` bytes -/
+structure Access where
+  count : Nat
+  n : Nat
+  buflen : Nat
+
+/-- `recvLoop`, logging every `read` into the buffer -/
+def recvLoopT : Nat → Bytes → Nat → List Chunk → (Except Nat Bytes × List Chunk) × List Access
+  | 0, buf, _, cs => ((.ok buf, cs), [])
+  | fuel + 1, buf, buflen, cs =>
+    match readK cs (growLen buf buflen - buf.length) with
+    | (none, cs') => ((.error 7, cs'), [])
+    | (some none, cs') => ((.error 1, cs'), [])
+    | (some (some bs), cs') =>
+      let a : Access := ⟨buf.length, bs.length, growLen buf buflen⟩
+      if endsWith (buf ++ bs) prompt then ((.ok (buf ++ bs), cs'), [a])
+      else let r := recvLoopT fuel (buf ++ bs) (growLen buf buflen) cs'; (r.1, a :: r.2)
+
+theorem recvLoopT_fst (fuel : Nat) (buf : Bytes) (buflen : Nat) (cs : List Chunk) :
+    (recvLoopT fuel buf buflen cs).1 = recvLoop fuel buf buflen cs := by
+  induction fuel generalizing buf buflen cs with
+  | zero => rfl
+  | succ fuel ih =>
+    rw [recvLoopT, recvLoop_succ]
+    generalize readK cs (growLen buf buflen - buf.length) = r
+    obtain ⟨x, cs'⟩ := r
+    rcases x with _ | _ | bs
+    · rfl
+    · rfl
+    · simp only
+      split
+      · rfl
+      · exact ih _ _ _
+
+/-- every `read` stores a positive number of bytes inside the buffer: `count + n ≤ buflen` -/
+theorem recvLoopT_safe (fuel : Nat) (buf : Bytes) (buflen : Nat) (cs : List Chunk) (h : buf.length ≤ buflen) :
+    ∀ a ∈ (recvLoopT fuel buf buflen cs).2, 0 < a.n ∧ a.count + a.n ≤ a.buflen := by
+  induction fuel generalizing buf buflen cs with
+  | zero => simp [recvLoopT]
+  | succ fuel ih =>
+    rw [recvLoopT]
+    generalize hr : readK cs (growLen buf buflen - buf.length) = r
+    obtain ⟨x, cs'⟩ := r
+    rcases x with _ | _ | bs
+    · simp
+    · simp
+    · have hb := recv_step_bounds buf buflen cs h bs cs' hr
+      have hb2 : buf.length + bs.length ≤ growLen buf buflen := by simpa using hb.2
+      simp only
+      split
+      · intro a ha
+        simp only [List.mem_cons, List.not_mem_nil, or_false] at ha
+        subst ha
+        exact ⟨hb.1, hb2⟩
+      · intro a ha
+        simp only [List.mem_cons] at ha
+        rcases ha with rfl | ha
+        · exact ⟨hb.1, hb2⟩
+        · exact ih _ _ _ hb.2 a ha
+
+/-! ### how the call ends when the stream ends -/
+
+theorem recvResponse_ends (cs : List Chunk) (s : Bytes) (t : List Chunk) (hseg : Seg cs s t)
+    (hq : ∀ q r, s = q ++ r → q ≠ [] → endsWith q prompt = false) :
+    (t = [] → recvResponse cs = (7, [], [])) ∧ (∀ r, t = .eof :: r → recvResponse cs = (7, [], r)) ∧
+    (∀ r, t = .data [] :: r → recvResponse cs = (7, [], r)) ∧ (∀ r, t = .err :: r → recvResponse cs = (1, [], r)) := by
+  obtain ⟨b, hb, he⟩ := recv_seg_noprompt hseg hq
+  rw [← recvResponse_loop] at he
+  refine ⟨?_, ?_, ?_, ?_⟩
+  · rintro rfl
+    exact recvResponse_error cs 7 [] (by rw [he, recv_nil _ _ hb])
+  · rintro r rfl
+    exact recvResponse_error cs 7 r (by rw [he, recv_eof _ _ _ hb])
+  · rintro r rfl
+    exact recvResponse_error cs 7 r (by rw [he, recv_empty _ _ _ hb])
+  · rintro r rfl
+    exact recvResponse_error cs 1 r (by rw [he, recv_err _ _ _ hb])
+
+/-! ### `pm_node_status`: only-if directions -/
+
+theorem nodeStatus_state (node : Bytes) (cs : List Chunk) (st : Nat) (cs' : List Chunk) (h : nodeStatus node cs = (0, some st, cs')) :
+    (recvResponse cs).1 = 0 ∧
+    st = (if ∃ l ∈ replyLines cs, cstr l = offLine node then 1 else if ∃ l ∈ replyLines cs, cstr l = onLine node then 2 else 0) := by
+  by_cases h0 : (recvResponse cs).1 = 0
+  · rw [nodeStatus_spec node cs h0] at h
+    simp only [Prod.mk.injEq, Option.some.injEq, true_and] at h
+    exact ⟨h0, h.1.symm⟩
+  · rw [nodeStatus_fail node cs h0] at h
+    simp at h
+
+theorem nodeStatus_on (node : Bytes) (cs cs' : List Chunk) (h : nodeStatus node cs = (0, some 2, cs')) :
+    (∃ l ∈ replyLines cs, cstr l = onLine node) ∧ ¬ ∃ l ∈ replyLines cs, cstr l = offLine node := by
+  have := (nodeStatus_state node cs 2 cs' h).2
+  split at this
+  · omega
+  · rename_i hoff
+    split at this
+    · rename_i hon; exact ⟨hon, hoff⟩
+    · omega
+
+theorem nodeStatus_off (node : Bytes) (cs cs' : List Chunk) (h : nodeStatus node cs = (0, some 1, cs')) :
+    ∃ l ∈ replyLines cs, cstr l = offLine node := by
+  have := (nodeStatus_state node cs 1 cs' h).2
+  split at this
+  · rename_i hoff; exact hoff
+  · split at this <;> omega
+
+/-- a segmentation of `s`: non-empty pieces whose concatenation is `s` -/
+def Segmentation (ds : List Bytes) (s : Bytes) : Prop := (∀ d ∈ ds, d ≠ []) ∧ ds.flatten = s
+
+theorem Seg_of_segmentation (ds : List Bytes) (s : Bytes) (t : List Chunk) (h : Segmentation ds s) : Seg (ds.map .data ++ t) s t := by
+  rw [← h.2]; exact Seg_of_map ds t h.1
+
+instance (ds : List Bytes) (s : Bytes) : Decidable (Segmentation ds s) := by unfold Segmentation; infer_instance
+instance (l : RLine) : Decidable l.ok := by unfold RLine.ok; infer_instance
+instance (e : Exch) : Decidable e.ok := by unfold Exch.ok; infer_instance
+instance (w : Bytes) : Decidable (IsWord w) := by unfold IsWord; infer_instance
+
+
+/-! ### small additions -/
+
+/-- a CR appended at the end creates no CRLF: `IsLine (x ++ crlf)` just asks that `x` contains no CRLF -/
+theorem hasCRLF_append_cr (x : Bytes) : hasCRLF (x ++ [13]) = hasCRLF x := by
+  induction x with
+  | nil => rfl
+  | cons a x ih =>
+    cases x with
+    | nil => simp [hasCRLF]
+    | cons b r =>
+      simp only [List.cons_append, hasCRLF] at ih ⊢
+      rw [ih]
+
+theorem isLine_iff (l : Bytes) : IsLine l ↔ ∃ x, l = x ++ crlf ∧ hasCRLF x = false := by
+  unfold IsLine
+  simp only [hasCRLF_append_cr, crlf]
+
+theorem simpleCmd_eq (cs : List Chunk) : simpleCmd cs = ((recvResponse cs).1, (recvResponse cs).2.2) := rfl
+
+theorem connect_eq (cs : List Chunk) :
+    connect cs =
+      if (recvResponse cs).1 != 0 then ((recvResponse cs).1, 1, (recvResponse cs).2.2)
+      else if (recvResponse (recvResponse cs).2.2).1 != 0 then
+        ((recvResponse (recvResponse cs).2.2).1, 1, (recvResponse (recvResponse cs).2.2).2.2)
+      else (0, 0, (recvResponse (recvResponse cs).2.2).2.2) := by
+  unfold connect; rfl
+
+/-- `pm_connect`: success iff both exchanges (banner, `exprange`) succeed; the descriptor is closed exactly once on failure -/
+theorem connect_spec (cs : List Chunk) :
+    ((connect cs).1 = 0 ↔ (recvResponse cs).1 = 0 ∧ (recvResponse (recvResponse cs).2.2).1 = 0) ∧
+    (connect cs).2.1 = (if (connect cs).1 = 0 then 0 else 1) := by
+  rw [connect_eq]
+  by_cases h1 : (recvResponse cs).1 = 0
+  · by_cases h2 : (recvResponse (recvResponse cs).2.2).1 = 0
+    · simp [h1, h2]
+    · simp [h1, h2]
+  · simp [h1]
+
+deriving instance DecidableEq for Chunk
+
+
+/-- exact form of "the loop stops at the first read boundary at which the accumulated bytes end with the prompt":
+    in the logged loop, when the result is `.ok b`, the log is `pre ++ [last]`, `b` is the stream up to the end of the last
+    read, and at the end of every earlier read the accumulated bytes did not end with the prompt -/
+theorem recvLoopT_first (fuel : Nat) (buf : Bytes) (buflen : Nat) (cs : List Chunk) (hb : buf.length ≤ buflen)
+    (hf : chunkBytes cs < fuel) (b : Bytes) (cs' : List Chunk) (h : (recvLoopT fuel buf buflen cs).1 = (.ok b, cs')) :
+    ∃ pre last, (recvLoopT fuel buf buflen cs).2 = pre ++ [last] ∧
+      b = (buf ++ bytesOf cs).take (last.count + last.n) ∧ endsWith b prompt = true ∧
+      ∀ a ∈ pre, endsWith ((buf ++ bytesOf cs).take (a.count + a.n)) prompt = false := by
+  induction fuel generalizing buf buflen cs with
+  | zero => omega
+  | succ fuel ih =>
+    rw [recvLoopT] at h ⊢
+    generalize hr : readK cs (growLen buf buflen - buf.length) = r at h ⊢
+    obtain ⟨x, cs1⟩ := r
+    rcases x with _ | _ | bs
+    · simp at h
+    · simp at h
+    · have hm := readK_measure cs _ bs cs1 (growLen_space buf buflen hb).1 hr
+      have hbd := recv_step_bounds buf buflen cs hb bs cs1 hr
+      have hby := readK_bytesOf cs _ bs cs1 hr
+      have htake : (buf ++ bytesOf cs).take (buf.length + bs.length) = buf ++ bs := by
+        rw [hby, ← List.append_assoc]
+        have : buf.length + bs.length = (buf ++ bs).length := by simp
+        rw [this, List.take_left]
+      simp only at h ⊢
+      split
+      · rename_i he
+        rw [if_pos he] at h
+        simp only [Prod.mk.injEq, Except.ok.injEq] at h
+        obtain ⟨rfl, _⟩ := h
+        exact ⟨[], _, rfl, htake.symm, he, by simp⟩
+      · rename_i he
+        rw [if_neg he] at h
+        obtain ⟨pre, last, h1, h2, h3, h4⟩ := ih (buf ++ bs) (growLen buf buflen) cs1 hbd.2 (by omega) h
+        have heq : buf ++ bs ++ bytesOf cs1 = buf ++ bytesOf cs := by rw [hby, List.append_assoc]
+        rw [heq] at h2 h4
+        refine ⟨⟨buf.length, bs.length, growLen buf buflen⟩ :: pre, last, by simp only [h1, List.cons_append], h2, h3, ?_⟩
+        intro a ha
+        rcases List.mem_cons.mp ha with rfl | ha
+        · simp only [htake]; simpa using he
+        · exact h4 a ha
+
 end Pm.LibPmModel
+
+/-! ### axiom checks (the lemmas `Props/C16.lean` refers to; each rests on the lemmas before it) -/
